@@ -90,7 +90,17 @@ impl<'a> ExpressionEvaluator<'a> {
         self.program().expect_next_token(Token::RightParen)?;
         self.program()
             .push_function_call_onto_stack_and_goto_it(function_name, bindings)?;
-        let value = self.evaluate_expression()?;
+        let value = match self.evaluate_expression() {
+            Ok(value) => value,
+            Err(mut err) => {
+                // Attribute the error to the function body (where we still are),
+                // then pop the call's frame so it doesn't outlive the failed call.
+                self.program().populate_error_location(&mut err);
+                self.program()
+                    .pop_function_call_off_stack_and_return_from_it();
+                return Err(err);
+            }
+        };
         self.program()
             .pop_function_call_off_stack_and_return_from_it();
 
